@@ -6,11 +6,15 @@ from ._potential import Potential
 from io import StringIO
 
 
+# Numbers are written in full precision ('%f' keeps six decimals: a density of 1.2e-9 became 0.000000
+# and no value was good to more than 1e-6). TABEAM files are read in free format.
+_NUMBER = u"%.16e"
+
 def _tabulateFunction(outputfile, func, numpoints, step):
   outputbuilder = StringIO()
   row = []
   for i in range(numpoints):
-    row.append(u"%f" % (func( float(i) * step)))
+    row.append(_NUMBER % (func( float(i) * step)))
     if len(row) == 4:
       print(" ".join(row), file=outputbuilder)
       row = []
@@ -20,7 +24,7 @@ def _tabulateFunction(outputfile, func, numpoints, step):
 
 def _writeEmbeddingFunction(eampotential, nrho, drho, outfile):
   outputbuilder = StringIO()
-  print(u"embe %s %d 0.0 %f" % (eampotential.species, nrho, (nrho-1) * float(drho)), file=outputbuilder)
+  print((u"embe %s %d 0.0 " + _NUMBER) % (eampotential.species, nrho, (nrho-1) * float(drho)), file=outputbuilder)
 
   _tabulateFunction(outputbuilder, eampotential.embeddingFunction, nrho, drho)
   outfile.write(outputbuilder.getvalue())
@@ -29,15 +33,15 @@ def _writeEmbeddingFunction(eampotential, nrho, drho, outfile):
 def _writeDensityFunction(speciesA, speciesB, electronDensityFunction, nr, dr, outfile):
   outputbuilder = StringIO()
   if speciesA and speciesB:
-    print(u"dens %s %s %d 0.0 %f" % (speciesA, speciesB, nr, (nr-1) * float(dr)), file=outputbuilder)
+    print((u"dens %s %s %d 0.0 " + _NUMBER) % (speciesA, speciesB, nr, (nr-1) * float(dr)), file=outputbuilder)
   else:
-    print(u"dens %s %d 0.0 %f" % (speciesA, nr, (nr-1) * float(dr)), file=outputbuilder)
+    print((u"dens %s %d 0.0 " + _NUMBER) % (speciesA, nr, (nr-1) * float(dr)), file=outputbuilder)
   _tabulateFunction(outputbuilder, electronDensityFunction, nr, dr)
   outfile.write(outputbuilder.getvalue())
 
 def _writePairPotential(pairPotential, nr, dr, outfile):
   outputbuilder = StringIO()
-  print(u"pair %s %s %d 0.0 %f" % (pairPotential.speciesA, pairPotential.speciesB, nr, ((nr-1) * float(dr))), file=outputbuilder)
+  print((u"pair %s %s %d 0.0 " + _NUMBER) % (pairPotential.speciesA, pairPotential.speciesB, nr, ((nr-1) * float(dr))), file=outputbuilder)
 
   def potentialCallable(r):
     return pairPotential.energy(r)
